@@ -3,6 +3,7 @@ package main
 import (
 	"fmt"
 	"strings"
+	"time"
 
 	"github.com/robertkrimen/otto"
 	"ottoverif/h"
@@ -42,7 +43,7 @@ func genSeq(r *h.Rng, fns []string, steps int) string {
 	for i := 0; i < steps; i++ {
 		t := v()
 		var stmt string
-		switch r.Intn(14) {
+		switch r.Intn(17) {
 		case 0, 1, 2, 3:
 			fn := fns[r.Intn(len(fns))]
 			args := []string{v()}
@@ -70,8 +71,22 @@ func genSeq(r *h.Rng, fns []string, steps int) string {
 			stmt = fmt.Sprintf("for (var k in %s) { %s = %s[k] }", v(), t, v())
 		case 12:
 			stmt = fmt.Sprintf("%s = new (%s)(%s)", t, fns[r.Intn(len(fns))], v())
-		default:
+		case 13:
 			stmt = fmt.Sprintf("%s = Object.keys(%s).concat(Object.getOwnPropertyNames(%s)); Object.freeze(%s)", t, v(), v(), v())
+		case 14:
+			// length writes with small numbers (shrinks stop at non-configurable elements: error paths of
+			// arrayDefineOwnProperty), by assignment and by defineProperty, writable or not
+			if r.Bool() {
+				stmt = fmt.Sprintf("%s.length = %d", v(), r.Intn(4))
+			} else {
+				stmt = fmt.Sprintf("Object.defineProperty(%s, \"length\", {value: %d, writable: %v})", v(), r.Intn(4), r.Bool())
+			}
+		case 15:
+			x := v()
+			stmt = fmt.Sprintf("Object.%s(%s); %s.push(1); %s[%d] = 2; %s.length", []string{"seal", "preventExtensions", "freeze"}[r.Intn(3)], x, x, x, r.Intn(5), x)
+		default:
+			x := v()
+			stmt = fmt.Sprintf("%s = JSON.stringify(JSON.parse(JSON.stringify(%s), function(k, val){ return val })) + [].concat(%s).length + Array.prototype.slice.call(%s).length", t, x, x, x)
 		}
 		b.WriteString("try { " + stmt + " } catch (e) { " + t + " = e }\n")
 	}
@@ -80,12 +95,63 @@ func genSeq(r *h.Rng, fns []string, steps int) string {
 	return b.String()
 }
 
+// genSeqArray: a focused history on ONE array — the error paths of arrayDefineOwnProperty (a length
+// shrink stopping at a non-configurable element, non-writable length, sealed/frozen arrays) followed by
+// ordinary use of the same array and by the Go-side readers implSeq applies to every pool value.
+func genSeqArray(r *h.Rng, steps int) string {
+	var b strings.Builder
+	b.WriteString("var v0 = {p: 1}, v1 = function(a,b){ return arguments }, v2 = [1,2,3,4,5], v3 = \"str\", v4 = /a/g, v5 = new Date(0), v6 = new Error(\"e\"), v7 = [7,,9], v8 = Object.create(v2), v9 = v1.bind(v0, 1);\n")
+	arr := func() string {
+		if r.Chance(75) {
+			return "v2"
+		}
+		return "v7"
+	}
+	for i := 0; i < steps; i++ {
+		a := arr()
+		var stmt string
+		switch r.Intn(12) {
+		case 0, 1:
+			stmt = fmt.Sprintf("Object.defineProperty(%s, \"%d\", {value: %d, configurable: %v, writable: %v, enumerable: true})", a, r.Intn(6), r.Intn(9), r.Chance(40), r.Bool())
+		case 2, 3:
+			stmt = fmt.Sprintf("%s.length = %d", a, r.Intn(7))
+		case 4:
+			stmt = fmt.Sprintf("Object.defineProperty(%s, \"length\", {value: %d, writable: %v})", a, r.Intn(7), r.Chance(60))
+		case 5:
+			stmt = fmt.Sprintf("Object.%s(%s)", []string{"seal", "preventExtensions", "freeze"}[r.Intn(3)], a)
+		case 6:
+			stmt = fmt.Sprintf("%s.push(%d, %d)", a, r.Intn(9), r.Intn(9))
+		case 7:
+			stmt = fmt.Sprintf("%s[%d] = %d", a, r.Intn(8), r.Intn(9))
+		case 8:
+			stmt = fmt.Sprintf("%s.%s()", a, []string{"pop", "shift", "reverse", "sort"}[r.Intn(4)])
+		case 9:
+			stmt = fmt.Sprintf("%s.splice(%d, %d, %d)", a, r.Intn(4), r.Intn(3), r.Intn(9))
+		case 10:
+			stmt = fmt.Sprintf("v3 = JSON.stringify(JSON.parse(JSON.stringify(%s), function(k, val){ return val })) + %s.concat(%s).length", a, a, a)
+		default:
+			stmt = fmt.Sprintf("delete %s[%d]; %s.unshift(0)", a, r.Intn(6), a)
+		}
+		b.WriteString("try { " + stmt + " } catch (e) { v6 = e }\n")
+	}
+	b.WriteString("[v2.length, v7.length, v2.join(), v7.join()].join(\"|\")")
+	return b.String()
+}
+
 func implSeq(src string) string {
 	return guarded("seq "+src, func() string {
 		vm := newVM()
+		t0 := time.Now()
 		stop := watchdog(vm)
-		vm.Run(src)
+		_, rerr := vm.Run(src)
 		stop()
+		// a Go run-time panic raised INSIDE a script-level try block does not escape Run: tryCatchEvaluate
+		// recovers it and fails to convert it, and Run returns "TypeError: invalid value …".  Every
+		// statement of a sequence sits in a try, so that is how a crash shows here (unless the watchdog
+		// fired: its halting panic takes the same route and is the known finding trycatch_foreign of C18).
+		if rerr != nil && time.Since(t0) < time.Second && strings.Contains(rerr.Error(), "invalid value") {
+			return "go-panic-inside-try:" + h.Sanitize(rerr.Error())
+		}
 		for i := 0; i < 10; i++ {
 			if v, err := vm.Get(fmt.Sprintf("v%d", i)); err == nil {
 				v.Export()
